@@ -247,7 +247,9 @@ func runC03(c *Ctx) {
 			// a fixed deep tree: every prefix at every depth, with and without delimiter, V1 and V2
 			deep := []string{"a/b/c", "a/d", "a/e/f/g", "top", "x/y/z/w", "x/y2"}
 			if moveTo(c, r, bucket, cur, deep, "c03:history") {
-				for _, pf := range []string{"", "a", "a/", "a/b", "a/e/", "a/e/f", "a/e/f/", "x/y", "x/y/", "x/y/z/", "t", "a/e/f/g"} {
+				for _, pf := range []string{"", "a", "a/", "a/b", "a/e/", "a/e/f", "a/e/f/", "x/y", "x/y/", "x/y/z/", "t", "a/e/f/g",
+					// prefixes that run THROUGH an object ("top" and "a/d" are objects): nothing starts with them
+					"top/", "top/x/", "top/x/y", "a/d/", "a/d/q/", "a/e/f/g/h/"} {
 					for _, d := range delims {
 						if d != "" && d != "/" {
 							continue
